@@ -287,7 +287,16 @@ def run(tier):
             elif b.get("impl") == "panic":
                 res.violation(f"fmt-container-panic:{b['source'][:120]}", f"#[derive({d})] {b['source']}: answered by a panic instead of a diagnostic",
                               {"cmd": f"expand {d}", "source": b["source"], "answer": b.get("raw", "")})
-        corr_typed = [b for b in tbad] + fbad
+        # F. field attributes of Debug under / without a struct- or variant-level format
+        dcases, dbad, ddist = FC.debug_fields_correspondence(inproc, C.drive_lean, rng, 600 if tier == "quick" else 12000) if lean_ok else ([], [], {})
+        for b in sorted(dbad, key=lambda b: len(b["source"]))[:4]:
+            if b["model"] == "err" and b["impl"] == "ok":
+                res.violation(f"debug-field-accepted:{b['source'][:120]}", f"#[derive(Debug)] {b['source']}: the unknown / duplicated / contradicting field attribute is accepted",
+                              {"cmd": "expand Debug", "source": b["source"], "answer": b["raw"]})
+            elif b["impl"] == "panic":
+                res.violation(f"debug-field-panic:{b['source'][:120]}", f"#[derive(Debug)] {b['source']}: answered by a panic instead of a diagnostic",
+                              {"cmd": "expand Debug", "source": b["source"], "answer": b["raw"]})
+        corr_typed = [b for b in tbad] + fbad + dbad
         extra = [("correspondence: legacy attribute parser model == get_meta_info (hook)", lean_ok and not corr_bad),
                  ("correspondence: typed attribute parser model (ta) + C08/C14 models == working-tree verdict, diagnostic kind and expansion; fmt container attribute model (fc) normal forms == working-tree expansions", lean_ok and not corr_typed)]
         corr_bad = corr_bad + corr_typed
@@ -295,11 +304,12 @@ def run(tier):
             "evaluations": n + 2 * n_syn + len(CORRUPTIONS) + len(tcases) + 2 * len(tsyn) + 2 * len(fcases),
             "distinct_nontrivial": len({c[1] + "|" + ",".join(c[0]) for c in cases}) + n_syn + len(CORRUPTIONS),
             "rule": "distinct (allow-list, attribute list) inputs of the legacy parser + synonym pairs + corrupted items expanded by the working-tree code",
-            "traces_validated_against_impl": n + len(tcases) + len(fcases),
+            "traces_validated_against_impl": n + len(tcases) + len(fcases) + len(dcases),
             "model_vs_impl_disagreements": len(corr_bad),
             "distribution": {"legacy_parser_cases": n, "legacy_outcomes": kinds, "synonym_pairs": n_syn, "corruptions": len(CORRUPTIONS), "corruption_outcomes": ckinds,
                              "typed_attribute_cases": len(tcases), "typed_outcomes": tdist, "typed_synonym_rewrites": syn_kinds,
-                             "fmt_container_cases": len(fcases), "fmt_container_outcomes": fdist},
+                             "fmt_container_cases": len(fcases), "fmt_container_outcomes": fdist,
+                             "debug_field_attribute_cases": len(dcases), "debug_field_outcomes": ddist},
             "samples": [{"allowed": c[0], "attrs": c[1]} for c in cases[:3]],
         }
     except C.BuildError as e:
@@ -318,7 +328,7 @@ def run(tier):
         "model of the typed attribute parsers of utils.rs `mod attr` (Empty, Forward, Skip, Types, Either, Conversion, FieldConversion, ReprConversion, parse_attrs_with / merge_attrs), of into.rs (ConversionsAttribute, FieldAttribute, StructAttribute, check_legacy_syntax) and of from.rs's ConsiderLegacySyntax, written by hand over classified argument items (identifier / path type / other type / literal / nested list) and compared with the working tree on generated argument lists: verdict, legacy-or-other diagnostic, and expansion (through the C08 / C14 models)",
         "the classification of an argument by `syn` (what parses as a type / path / meta) is an assumption of that model, validated by the same comparison",
         "model of the container attributes of the formatting derives (fmt/mod.rs ContainerAttributes / BoundsAttribute, display.rs ContainerAttributes / RenameAllAttribute, debug.rs's variant-level FmtAttribute and its no-format-on-enum rule) over attributes classified by what leads them (format literal, bound / bounds list, rename_all, legacy forms, anything else); tied to the working tree by expanding the model's answer in normal-form spelling and comparing with the expansion of the attributes as written",
-        "field-level attributes of Debug (skip / format), ReprInt and Error's attributes are not modelled in Lean: their synonym / rejection behaviour is decided on the hand-written tables of spellings and single-step corruptions run against the working-tree expansions",
+        "the field attributes of Debug are modelled as kinds (skip / format / unreadable) with the one-attribute-per-field and no-field-format-under-a-container-format rules; ReprInt and Error's attributes (Error goes through the legacy parser) are not modelled separately in Lean: their synonym / rejection behaviour is decided on the hand-written tables of spellings and single-step corruptions run against the working-tree expansions",
         "syn's parsing of attribute token trees (commas, parentheses) is trusted",
     ]
     return res.finish()
